@@ -4,6 +4,7 @@ import Verif.Model.Rfc3339
 import Verif.Model.Frames
 import Verif.Model.Docker
 import Verif.Model.Merge
+import Verif.Model.Resources
 import Verif.Driver.Codec
 /-! Line-protocol driver: one request per line on stdin, one reply per line on stdout.
 Core-only (no Mathlib), compiled as `lean_exe driver`. -/
@@ -34,6 +35,34 @@ def decodeMatcher (s : Sexp) : Docker.Matcher :=
   | [l, op, v, re] => ⟨l.toBytes, decodeOp op, v.toBytes, Codec.decodeRe re⟩
   | _ => ⟨[], .eq, [], .eps⟩
 
+def decodeSel (s : Sexp) : Resources.Sel :=
+  match s.args with
+  | [stage, lst, ctrs] =>
+    { stageOk := stage.toNat == 1, listFails := lst.toNat == 1,
+      ctrs := ctrs.items.map fun c => match c.symOf with
+        | "open" => .openFail | "stream" => .streamFault | _ => .ok }
+  | _ => { stageOk := true, listFails := false, ctrs := [] }
+
+instance : Inhabited Resources.Q := ⟨.vector⟩
+
+partial def decodeQ (s : Sexp) : Resources.Q :=
+  match s.head?, s.args with
+  | some "log", [sel] => .log (decodeSel sel)
+  | some "range", [sel, ok] => .range (decodeSel sel) (ok.toNat == 1)
+  | some "vecagg", [ok, q] => .vecAgg (ok.toNat == 1) (decodeQ q)
+  | some "binop", [ok, l, r] => .binop (ok.toNat == 1) (decodeQ l) (decodeQ r)
+  | some "litop", [q] => .litOp (decodeQ q)
+  | _, _ => .vector
+
+def ridsOut (rs : List Resources.Rid) : Sexp :=
+  let sorted := rs.foldl (fun acc r =>
+    let rec ins : List Resources.Rid → List Resources.Rid
+      | [] => [r]
+      | x :: xs => if r.1 < x.1 || (r.1 == x.1 && r.2 < x.2) then r :: x :: xs
+                   else if r == x then x :: xs else x :: ins xs
+    ins acc) []
+  .list (sorted.map fun r => .atom s!"{r.1}-{r.2}")
+
 def handle (req : Sexp) : Sexp :=
   match req.head?, req.args with
   | some "keytolabel", [k] => ofBytes (KeyToLabel.run k.toBytes)
@@ -56,6 +85,11 @@ def handle (req : Sexp) : Sexp :=
       | [t, s, j] => ⟨t.toNat, s.toNat, j.toNat⟩
       | _ => ⟨0, 0, 0⟩
     if Merge.isRun srcs' out' then sym "ok" else .list [sym "bad"]
+  | some "resources", [q] =>
+    let r := Resources.eval (decodeQ q) Resources.init
+    let cls := match r.1 with
+      | none => "ok" | some .build => "build" | some .list => "list" | some .open => "open" | some .stream => "stream"
+    .list [sym cls, ridsOut r.2.opened, ridsOut r.2.closed]
   | _, _ => .list [sym "bad-op"]
 
 partial def loop (h : IO.FS.Stream) (out : IO.FS.Stream) : IO Unit := do
